@@ -13,6 +13,7 @@ Not decided: overlap-freedom, routes avoiding nodes, satisfaction of the returne
 import copy
 from fractions import Fraction
 
+import re
 from ..astq import strip, strip_casts, calls, call_args, call_object, writes, written_field, norm, literal_value, src, single_assignment_locals
 from ..cfg import CFG
 from ..facts import AnalysisBroken, walk, children
@@ -475,6 +476,73 @@ def rule_hola_returns(chk, prog):
                              "of the ideal edge length only, and a node that is long in the growth direction overlaps its parent / children" % norm(call_args(sl[0])[2]))
 
 
+def rule_chain_directions(chk, prog):
+    from ..astq import single_assignment_locals
+    r = chk.rule("CHAIN-DIRECTIONS", "libdialect chains (useACAforLinks = false): (a) Chain::computePossibleBendSequences asks the SepMatrix for the direction "
+                 "of each anchor edge with the same ordered node pair that its own fall-back (possibleCardinalDirections, in the catch block) "
+                 "uses -- left anchor -> first node, last node -> right anchor; the reverse pair yields the opposite direction and bend "
+                 "sequences for a chain leaving away from its anchor; (b) Chain::writeConfigSeq: with the locals expanded, the configuration "
+                 "written for an edge after TWO consecutive bends (at the node, then on the edge) is the composition of what it writes for "
+                 "a bend at the node and for a bend on the edge: (B0(d), B1(B0(d))) -- not (d, ...), which loses the bend at the node", floor=3)
+    fn = prog.fn("dialect::Chain::computePossibleBendSequences")
+    tries = [t for t in fn.nodes() if t.get("k") == "CXXTryStmt"]
+    n = 0
+    for t in tries:
+        q = [c for c in walk(t.get("try") or {}) if (c.get("cname") or "").endswith("SepMatrix::getCardinalDir")]
+        fb = [c for h in (t.get("handlers") or []) for c in walk(h) if (c.get("cname") or "").endswith("possibleCardinalDirections")]
+        if len(q) != 1 or len(fb) != 1:
+            continue
+        n += 1
+        r.count()
+        a = [norm(x).replace(".*", "").replace(".id()", "") for x in call_args(q[0])]
+        b = [norm(x).replace(".*", "") for x in call_args(fb[0])]
+        (r.ok if a == b else r.bad)("anchor edge %s - %s" % tuple(b), fn.loc(q[0]), "" if a == b else
+                                    "the aligned direction is looked up for (%s, %s), the fall-back considers (%s, %s)" % (a[0], a[1], b[0], b[1]))
+    if n != 2:
+        raise AnalysisBroken("computePossibleBendSequences: the two try / catch direction look-ups were not found")
+    fn = prog.fn("dialect::Chain::writeConfigSeq")
+    sal = single_assignment_locals(fn)
+    pairs = []
+    for c in calls(fn):
+        if (c.get("cname") or "").endswith("push_back") and call_object(c) is not None:
+            m = re.match(r"^std::pair<[^()]*CardinalDir,[^()]*CardinalDir>\((.*)\)$", norm(call_args(c)[0], sal))
+            if not m:
+                continue
+            body = m.group(1)
+            depth, cut = 0, None
+            for i_, ch in enumerate(body):
+                depth += ch in "([" 
+                depth -= ch in ")]"
+                if ch == "," and depth == 0:
+                    cut = i_
+                    break
+            if cut is None:
+                continue
+            pairs.append((body[:cut].strip(), body[cut + 1:].strip(), c))
+    plain = [p_ for p_ in pairs if p_[0] == p_[1] and re.match(r"^\w+$", p_[0])]
+    if not plain:
+        raise AnalysisBroken("writeConfigSeq: the `carry on in the current direction` configuration was not found")
+    D = plain[0][0]
+    node = [p_ for p_ in pairs if p_[0] == p_[1] and p_[0] != D]
+    bent = sorted([p_ for p_ in pairs if p_[0] != p_[1]], key=lambda p_: (p_[0] != D, len(p_[1])))
+    edge = [p_ for p_ in bent[:1] if p_[0] == D]          # the single bend on the edge: (d, B0(d)) -- the shortest of the bent configurations
+    double = bent[1:] if edge else bent
+    if len(edge) == 1 and len(double) == 0 and len({p_[0] for p_ in node}) == 1 and len(node) >= 1:
+        r.count()
+        r.bad("two consecutive bends", fn.loc(node[-1][2]), "no configuration is written that bends twice (node bend, then edge bend with a further direction): "
+              "the second of two consecutive bends is lost")
+        return
+    if len(edge) < 1 or len(node) != 1 or len(double) != 1:
+        raise AnalysisBroken("writeConfigSeq: the single-bend / double-bend configurations were not recognised (%d edge, %d node, %d double)" % (len(edge), len(node), len(double)))
+    r.count()
+    want_a = node[0][0]
+    want_b = re.sub(r"\b%s\b" % re.escape(D), lambda m_: want_a, edge[0][1].replace("[0]", "[1]"))
+    got_a, got_b = double[0][0], double[0][1]
+    ok = (got_a, got_b) == (want_a, want_b)
+    (r.ok if ok else r.bad)("two consecutive bends", fn.loc(double[0][2]), "" if ok else
+                            "written (%s, %s); the composition of the node bend and the edge bend is (%s, %s)" % (got_a, got_b, want_a, want_b))
+
+
 def run(chk):
     prog = chk.load()
     chk.guard(rule_hola_returns, chk, prog)
@@ -489,6 +557,7 @@ def run(chk):
     chk.guard(rule_tree_flip, chk, prog)
     chk.guard(rule_merge_join, chk, prog)
     chk.guard(rule_core_alignments, chk, prog)
+    chk.guard(rule_chain_directions, chk, prog)
     from ..rules import mirrors
     r_m = chk.rule("MIRROR", "the x / y twins of dialect::Node (coordinate write-back from the solver rectangle) stay mirror images (tables/mirrors.json)", floor=1)
     mirrors.check(r_m, prog, ["dialect::Node::"])
